@@ -1,7 +1,190 @@
-//! C23 — not built yet.
-use lv_common::Ctx;
+//! C23 — Redb schema migration preserves stored ranges.
+//!
+//! Databases are written with raw redb tables exactly as older lumina versions did (v1:
+//! `STORE.HEIGHT_RANGES: u64 -> (u64,u64)`; v2: `STORE.RANGES` with the header key and the old
+//! `KEY.ACCEPTED_SAMPING_RANGES`; v3: current keys), with schema versions 1..=5, then opened with
+//! `RedbStore::new`.
 
-pub fn run(_ctx: &mut Ctx) {
-    eprintln!("C23: check not built yet");
-    std::process::exit(2);
+use std::sync::Arc;
+
+use lumina_node::store::{RedbStore, Store};
+use lv_common::prelude::*;
+use redb::{Database, ReadableTable, TableDefinition};
+
+const SCHEMA_VERSION_TABLE: TableDefinition<'static, (), u64> = TableDefinition::new("STORE.SCHEMA_VERSION");
+const RANGES_TABLE: TableDefinition<'static, &str, Vec<(u64, u64)>> = TableDefinition::new("STORE.RANGES");
+const V1_HEIGHT_RANGES: TableDefinition<'static, u64, (u64, u64)> = TableDefinition::new("STORE.HEIGHT_RANGES");
+const HEADER_KEY: &str = "KEY.HEADER_RANGES";
+const SAMPLED_KEY: &str = "KEY.SAMPLED_RANGES";
+const PRUNED_KEY: &str = "KEY.PRUNED_RANGES";
+const V2_SAMPLED_KEY: &str = "KEY.ACCEPTED_SAMPING_RANGES";
+
+#[derive(Clone, Debug, Serialize, Deserialize)]
+pub struct Case {
+    pub version: u8,
+    /// canonical range list as (gap before, length) pairs
+    pub stored: Vec<(u32, u32)>,
+    /// which stored heights are sampled: per stored range (offset selector, length selector), or skip
+    pub sampled: Vec<Option<(u16, u16)>>,
+    pub pruned_gap: Option<u16>,
+    pub base: u64,
+}
+
+fn canon(base: u64, gl: &[(u32, u32)]) -> Vec<(u64, u64)> {
+    let mut out = Vec::new();
+    let mut at = base.max(1);
+    for (gap, len) in gl {
+        // gap >= 1 between ranges keeps them non-adjacent
+        let start = at.saturating_add(*gap as u64 + if out.is_empty() { 0 } else { 1 });
+        let end = start.saturating_add(*len as u64);
+        if end >= u64::MAX - 2 {
+            break;
+        }
+        out.push((start, end));
+        at = end + 1;
+    }
+    out
+}
+
+fn sampled_of(stored: &[(u64, u64)], sel: &[Option<(u16, u16)>]) -> Vec<(u64, u64)> {
+    let mut out = Vec::new();
+    for (i, (a, b)) in stored.iter().enumerate() {
+        if let Some(Some((o, l))) = sel.get(i) {
+            let len = b - a + 1;
+            let off = ((*o as u128 * len as u128) >> 16) as u64;
+            let rem = len - off;
+            let l = ((*l as u128 * rem as u128) >> 16) as u64;
+            out.push((a + off, a + off + l));
+        }
+    }
+    out
+}
+
+fn read_raw(db: &Database) -> (Option<u64>, Vec<(String, Vec<(u64, u64)>)>, Option<Vec<(u64, (u64, u64))>>) {
+    let tx = db.begin_read().unwrap();
+    let version = tx.open_table(SCHEMA_VERSION_TABLE).ok().and_then(|t| t.get(()).unwrap().map(|g| g.value()));
+    let mut ranges = Vec::new();
+    if let Ok(t) = tx.open_table(RANGES_TABLE) {
+        for k in [HEADER_KEY, SAMPLED_KEY, PRUNED_KEY, V2_SAMPLED_KEY] {
+            if let Some(v) = t.get(k).unwrap() {
+                ranges.push((k.to_string(), v.value()));
+            }
+        }
+    }
+    let v1 = tx.open_table(V1_HEIGHT_RANGES).ok().map(|t| t.iter().unwrap().map(|r| { let (k, v) = r.unwrap(); (k.value(), v.value()) }).collect());
+    (version, ranges, v1)
+}
+
+fn bv(r: &lumina_node::store::BlockRanges) -> Vec<(u64, u64)> {
+    let v: &[std::ops::RangeInclusive<u64>] = r.as_ref();
+    v.iter().map(|x| (*x.start(), *x.end())).collect()
+}
+
+fn run_case(case: &Case, obs: &mut Obs) -> Result<(), Failure> {
+    let stored = canon(case.base, &case.stored);
+    let sampled = if case.version >= 2 { sampled_of(&stored, &case.sampled) } else { vec![] };
+    let pruned: Vec<(u64, u64)> = match (case.pruned_gap, stored.first()) {
+        (Some(g), Some((a, _))) if case.version >= 3 && *a > 2 => {
+            let lo = 1 + ((g as u128 * (*a as u128 - 2)) >> 16) as u64;
+            vec![(lo, a - 2)]
+        }
+        _ => vec![],
+    };
+    let db = Arc::new(Database::builder().create_with_backend(redb::backends::InMemoryBackend::new()).unwrap());
+    {
+        let tx = db.begin_write().unwrap();
+        {
+            let mut sv = tx.open_table(SCHEMA_VERSION_TABLE).unwrap();
+            sv.insert((), case.version as u64).unwrap();
+            match case.version {
+                1 => {
+                    let mut t = tx.open_table(V1_HEIGHT_RANGES).unwrap();
+                    for (i, r) in stored.iter().enumerate() {
+                        t.insert(i as u64, *r).unwrap();
+                    }
+                }
+                2 => {
+                    let mut t = tx.open_table(RANGES_TABLE).unwrap();
+                    t.insert(HEADER_KEY, stored.clone()).unwrap();
+                    t.insert(V2_SAMPLED_KEY, sampled.clone()).unwrap();
+                }
+                _ => {
+                    let mut t = tx.open_table(RANGES_TABLE).unwrap();
+                    t.insert(HEADER_KEY, stored.clone()).unwrap();
+                    t.insert(SAMPLED_KEY, sampled.clone()).unwrap();
+                    t.insert(PRUNED_KEY, pruned.clone()).unwrap();
+                }
+            }
+        }
+        tx.commit().unwrap();
+    }
+    let raw_before = read_raw(&db);
+    let rt = tokio::runtime::Builder::new_current_thread().enable_all().build().unwrap();
+    let nontrivial = !stored.is_empty() && (case.version != 3);
+    obs.eval(nontrivial.then(|| digest_of(&(case.version, &stored, &sampled))));
+    obs.label(&format!("schema-v{}", case.version));
+    if case.version <= 2 && !sampled.is_empty() {
+        obs.label("old-schema-with-sampled-ranges");
+    }
+    if stored.len() >= 2 {
+        obs.label("multi-range");
+    }
+    let opened = rt.block_on(RedbStore::new(db.clone()));
+    if case.version <= 3 {
+        let store = match opened {
+            Ok(s) => s,
+            Err(e) => {
+                return obs.fail("C23:old-schema-refused", format!("schema v{} database with stored {stored:?} sampled {sampled:?} failed to open: {e}", case.version));
+            }
+        };
+        let (gs, gp, gr) = rt.block_on(async {
+            (bv(&store.get_stored_header_ranges().await.unwrap()), bv(&store.get_sampled_ranges().await.unwrap()), bv(&store.get_pruned_ranges().await.unwrap()))
+        });
+        rt.block_on(store.close()).unwrap();
+        obs.check(gs == stored, "C23:stored-ranges-changed", || format!("v{}: stored ranges written {stored:?}, reported after migration {gs:?}", case.version))?;
+        obs.check(gp == sampled, "C23:sampled-ranges-changed", || format!("v{}: sampled ranges written {sampled:?}, reported after migration {gp:?}", case.version))?;
+        obs.check(gr == pruned, "C23:pruned-ranges-changed", || format!("v{}: pruned ranges written {pruned:?}, reported {gr:?}", case.version))?;
+        let raw = read_raw(&db);
+        obs.check(raw.0 == Some(3), "C23:schema-version-not-updated", || format!("schema version after migration is {:?}", raw.0))?;
+        obs.check(!raw.1.iter().any(|(k, _)| k == V2_SAMPLED_KEY), "C23:old-key-left-behind", || "v2 sampled key still present after migration".into())?;
+        obs.check(raw.2.as_ref().map(|v| v.is_empty()).unwrap_or(true), "C23:old-table-left-behind", || "v1 HEIGHT_RANGES table still has rows after migration".into())?;
+        // idempotent re-open
+        let again = rt.block_on(RedbStore::new(db.clone())).map_err(|e| Failure::new("C23:reopen-after-migration-failed", e.to_string()))?;
+        let (gs2, gp2) = rt.block_on(async { (bv(&again.get_stored_header_ranges().await.unwrap()), bv(&again.get_sampled_ranges().await.unwrap())) });
+        rt.block_on(again.close()).unwrap();
+        obs.check(gs2 == stored && gp2 == sampled, "C23:reopen-changed-ranges", || format!("second open reports stored {gs2:?} sampled {gp2:?}"))?;
+    } else {
+        match opened {
+            Ok(s) => {
+                let _ = rt.block_on(s.close());
+                obs.fail("C23:newer-schema-accepted", format!("database with schema version {} was opened", case.version))?;
+            }
+            Err(_) => {}
+        }
+        let raw_after = read_raw(&db);
+        obs.check(raw_after == raw_before, "C23:refused-database-modified", || format!("refused v{} database changed: before {raw_before:?} after {raw_after:?}", case.version))?;
+    }
+    Ok(())
+}
+
+pub fn run(ctx: &mut Ctx) {
+    ctx.assume("old databases are written by the harness with raw redb tables as the v1/v2 code did (v1 has no sampled ranges); range lists are canonical (sorted, disjoint, non-adjacent, no height 0); sampled ⊆ stored");
+    ctx.essential(&["schema-v1", "schema-v2", "schema-v3", "schema-v4", "schema-v5", "old-schema-with-sampled-ranges"]);
+    let cases = ctx.tier.pick(1200, 40000);
+    ctx.proptest(
+        "migration",
+        "database = schema version 1..=5 x canonical stored ranges (0..8 ranges, boundary-biased base incl. near u64::MAX) x sampled sub-ranges x pruned range; opened with RedbStore::new. Non-trivial = non-empty ranges under a schema version other than the current one (distinct by version+ranges)",
+        cases,
+        || {
+            (
+                1u8..=5,
+                prop::collection::vec((0u32..50, prop_oneof![3 => 0u32..20, 1 => 0u32..100_000]), 0..8),
+                prop::collection::vec(prop::option::of((any::<u16>(), any::<u16>())), 0..8),
+                prop::option::of(any::<u16>()),
+                prop_oneof![4 => 1u64..100, 2 => 1u64..1_000_000, 1 => (u64::MAX - 1_000_000)..(u64::MAX - 500_000), 1 => Just(1u64 << 32)],
+            )
+                .prop_map(|(version, stored, sampled, pruned_gap, base)| Case { version, stored, sampled, pruned_gap, base })
+        },
+        run_case,
+    );
 }
